@@ -380,12 +380,13 @@ pub fn run(cfg: &Cfg) -> Report {
     Report {
         property: ID,
         level: "model_checking",
-        rule: format!("(a) compile probe: {}. (b) stateless exploration of thread interleavings on real OS threads under a baton scheduler (one thread runs between scheduling points; scheduling points at thread start/end and inside the harness-owned user functions y/z called during evaluation); depth-first over choice prefixes with preemption bounds 0,1,2 (quick) / 0..3 and unbounded for the 2-thread workloads (thorough); {} workloads (same tree + same context; different trees; string-level evaluation; shared tree with per-thread mutable clones; clone/format/iterate while evaluating); oracle: every thread's result and own ordered call log equal its sequential run. Transitions = complete executions (schedules); non-trivial/distinct = distinct global interleavings of the user-function calls that the schedules produced", probe, ws.len()),
+        rule: format!("(a) compile probe: {}. (b) stateless exploration of thread interleavings on real OS threads under a baton scheduler (one thread runs between scheduling points; scheduling points at thread start/end and inside the harness-owned user functions y/z called during evaluation); depth-first over choice prefixes with preemption bounds 0,1,2 (quick) / 0..3 and unbounded for the 2-thread workloads (thorough); {} workloads (same tree + same context; different trees; string-level evaluation; shared tree with per-thread mutable clones; clone/format/iterate while evaluating); oracle: every thread's result and own ordered call log equal its sequential run. (c) loom pass (merged below as a secondary profile): loom 0.7 explores, with preemption bound 2 (quick) / 2, 3 and unbounded (thorough), 10 workloads of 2-3 threads sharing one Node and one HashMapContext against a copy of /repo's sources in which std::sync atomics, locks, thread-locals and statics are mechanically rewritten to loom's (tools/loomify.py), so that every synchronisation operation inside the library is a scheduling point too; same oracle, plus: after the threads are joined the shared objects still give the sequential answers. Transitions = complete executions (schedules); non-trivial/distinct = distinct global interleavings of the user-function calls that the schedules produced", probe, ws.len()),
         nontrivial_set: "counter:nontrivial-distinct",
         exhaustive: true,
         bound_completed: match cfg.tier { Tier::Quick => "preemption bound 2".into(), Tier::Thorough => "unbounded for 2 threads, preemption bound 3 for 3 threads".to_string() },
         assumptions: vec![
-            "races whose window contains no scheduling point, and weak-memory effects, are not explored; data races proper are excluded by #![forbid(unsafe_code)] (asserted)".into(),
+            "baton scheduler: races whose window contains no harness-owned scheduling point are not explored by it; the loom pass adds every library-internal atomic / lock / thread-local operation as a scheduling point (for the primitives loom models; Once, OnceLock, LazyLock and Arc reference counts are left on std and stay invisible); weak-memory effects only as far as loom models them; data races proper are excluded by #![forbid(unsafe_code)] (asserted)".into(),
+            "loom pass: if the rewritten copy does not build (an API loom lacks) the pass reports itself not applicable to the tree and the baton exploration alone decides; a run that hits its time cap or that loom aborts for a reason other than the harness's own comparison is counted as capped / inconclusive, never as a verdict".into(),
             "schedule 0 of every workload is run twice and must give identical observations; a divergence while replaying a prefix is a machinery error".into(),
             "a thread that blocks on a foreign lock held across a scheduling point is marked blocked by a watchdog and the baton passes on (counted as degraded determinism; the oracle stays sound)".into(),
             "the Send + Sync half is decided by the type checker, as the property says".into(),
